@@ -933,6 +933,7 @@ func main() {
 	writeChunk(t, *out)
 	writeStats(t, *out)
 	writeTrigger(t, *out)
+	writeSlot(t, *out)
 	if err := os.MkdirAll(*out, 0o755); err != nil {
 		fmt.Fprintln(os.Stderr, err)
 		os.Exit(2)
